@@ -48,6 +48,8 @@ type Case struct {
 	BS     []int  `json:"bs,omitempty"`     // remote: the actors living on node B
 	NoTrap []int  `json:"notrap,omitempty"` // remote: actors that do not trap exit signals
 	Mode   string `json:"mode,omitempty"`   // rstress
+	// bounded family (bounded.go): (actor, MailboxSize) of the subscribers whose HandleEvent blocks
+	Stuck [][2]int `json:"stuck,omitempty"`
 }
 
 type pub struct {
@@ -1002,7 +1004,7 @@ func head(l []pub, n int) []pub {
 
 func main() {
 	if len(os.Args) < 2 {
-		fmt.Println("usage: event seq|hooked|stress|remote|rstress -n N -out file [-replay file] [-modes a,b]")
+		fmt.Println("usage: event seq|hooked|stress|bounded|remote|rstress -n N -out file [-replay file] [-modes a,b]")
 		os.Exit(2)
 	}
 	sub := os.Args[1]
@@ -1094,6 +1096,8 @@ func main() {
 			emitHooked(rp.Case)
 		case "remote":
 			emitRemote(rp.Case)
+		case "bounded":
+			o.Add(runBoundedCase(rp.Case), rp.Case)
 		case "rstress":
 			startPair()
 			rstress(*n, util.Rng(5), o, []string{rp.Case.Mode})
@@ -1133,6 +1137,23 @@ func main() {
 		}
 		for len(o.Cases) < *n {
 			emitRemote(genRemote(r, &seqBase))
+		}
+	case "bounded":
+		r := util.Rng(6)
+		emitBounded := func(c Case) {
+			o.Add(runBoundedCase(c), c)
+			o.Stats["histories"]++
+			o.Stats["ops"] += len(c.Ops)
+			o.Stats["stuck-subscribers"] += len(c.Stuck)
+			for _, op := range c.Ops {
+				o.Stats["op:"+op.K]++
+			}
+		}
+		for _, c := range corpusBounded() {
+			emitBounded(c)
+		}
+		for len(o.Cases) < *n {
+			emitBounded(genBounded(r, &seqBase))
 		}
 	case "rstress":
 		startPair()
